@@ -33,12 +33,20 @@ def natLe (a b : Nat) : Bool := decide (a ≤ b)
 
 abbrev RawTrace (α : Type) := List (List (List α))
 
+/-- stable insertion sort (structural, so that closed instances evaluate in the kernel): `x` goes before the
+    first element it is `≤` to, hence before the equal elements that followed it in the input -/
+def insertBy {β : Type} (le : β → β → Bool) (x : β) : List β → List β
+  | [] => [x]
+  | y :: t => if le x y then x :: y :: t else y :: insertBy le x t
+
+def sortBy {β : Type} (le : β → β → Bool) (l : List β) : List β := l.foldr (insertBy le) []
+
 section generic
 variable {α : Type} [DecidableEq α]
 
 /-- the canonical form of one stored genotype (`integer.sort(genotypes[c, i])`); the sorting algorithm is
     irrelevant: rows that compare equal are identical -/
-def canon (le : α → α → Bool) (g : List α) : List α := g.mergeSort le
+def canon (le : α → α → Bool) (g : List α) : List α := sortBy le g
 
 /-- `GenotypeMultiTrace.__post_init__`: every step of every chain is sorted -/
 def canonTrace (le : α → α → Bool) (t : RawTrace α) : RawTrace α :=
@@ -69,7 +77,7 @@ def probsOf {β : Type} [DecidableEq β] (l : List β) : List (β × Rat) :=
     numpy's default sort is not stable, so the order inside a group of equal probabilities is the part of
     this definition the correspondence compares only up to ties. -/
 def sortDesc {β : Type} (ps : List (β × Rat)) : List (β × Rat) :=
-  (ps.mergeSort (fun a b => decide (a.2 ≤ b.2))).reverse
+  (sortBy (fun a b => decide (a.2 ≤ b.2)) ps).reverse
 
 /-- `posterior()` of a list of (already canonical) steps -/
 def posteriorOf {β : Type} [DecidableEq β] (steps : List β) : List (β × Rat) := sortDesc (probsOf steps)
